@@ -10,7 +10,9 @@
 (* generator is never consulted.  `hist` is the decision sequence; the      *)
 (* harness replays hist of every finished state on the real simulators.     *)
 EXTENDS TreeSim
-CONSTANTS Sims, MaxN, MaxDt, MaxDec, MaxG, MaxSp, RootDt, StopGT, AsShipped, Leak
+CONSTANTS Sims, MaxN, MaxDt, MaxDec, MaxG, MaxSp, RootDt, StopGT, AsShipped, Leak,
+          HistMaxGenes,      \* argument histories are explored for contained coalescents with at most so many genes
+          StaleArgs          \* (wrong) the mapping argument memoises the assignment seen by the first call
 VARIABLES cs, a, b, hist
 vars == <<cs, a, b, hist>>
 
@@ -19,12 +21,44 @@ Sp2(h) == GraphOf(3, 1, << <<2, 3>>, <<>>, <<>> >>, <<0, 1, 1>>, <<0, h, h>>, <<
 Sp3 == GraphOf(5, 1, << <<2, 5>>, <<3, 4>>, <<>>, <<>>, <<>> >>, <<0, 1, 2, 2, 1>>, <<0, 1, 1, 1, 2>>, <<0, 0, 1, 2, 3>>)
 SpTrees == {Sp1, Sp2(1), Sp2(2)} \cup (IF MaxSp >= 3 THEN {Sp3} ELSE {})
 NumSp(t) == Cardinality(Leaves(t))
-Case(m, n, st, sp, G) == [sim |-> m, N |-> n, start |-> st, sp |-> sp, G |-> G]
+\* cs = the arguments of the call under study: G the genes per species the mapping was built with, gm the gene ->
+\* species assignment it holds NOW, ops what was done with the same argument objects before (an earlier
+\* simulator call, a re-assignment in place), memo what a cache inside the mapping would still hold
+Case(m, n, st, sp, G) == [sim |-> m, N |-> n, start |-> st, sp |-> sp, G |-> G, gm |-> GMapOf(G), memo |-> <<>>, ops |-> <<>>]
 Cases == {Case(m, n, "single", NoG, <<>>) : m \in Sims \cap {"bd", "fast", "upb", "king"}, n \in 1..MaxN}
          \cup {Case(m, n, "cherry", NoG, <<>>) : m \in Sims \cap {"bd", "fast"}, n \in 2..MaxN}
          \cup (IF "cc" \in Sims THEN UNION {{Case("cc", 0, "single", t, G) : G \in [1..NumSp(t) -> 1..MaxG]} : t \in SpTrees} ELSE {})
+\* species trees of the history cases: in Sp3h the clade (A,B) is old enough for a join of an A gene with a B gene
+\* to be more recent than the divergence of C, so that a stale assignment is visible in the divergence clause
+Sp3h == GraphOf(5, 1, << <<2, 5>>, <<3, 4>>, <<>>, <<>>, <<>> >>, <<0, 1, 2, 2, 1>>, <<0, 2, 1, 1, 3>>, <<0, 0, 1, 2, 3>>)
+HistTrees == {Sp2(1)} \cup (IF MaxSp >= 3 THEN {Sp3h} ELSE {})
+HistCases == IF "cc" \in Sims
+             THEN {c \in UNION {{Case("cc", 0, "single", t, G) : G \in [1..NumSp(t) -> 1..MaxG]} : t \in HistTrees} :
+                     Len(c.gm) <= HistMaxGenes}
+             ELSE {}
+ArgsPhase(c) == [Blank(c) EXCEPT !.ph = "args"]
 
-Init == /\ cs \in Cases /\ a = InitOf(cs) /\ b = InitOf(cs) /\ hist = <<>>
+Init == /\ hist = <<>>
+        /\ \/ cs \in Cases /\ a = InitOf(cs) /\ b = InitOf(cs)
+           \/ cs \in HistCases /\ a = ArgsPhase(cs) /\ b = ArgsPhase(cs)
+
+\* ---- histories on the argument objects before the call under study
+Op(o, p) == [op |-> o, p |-> p]
+Perms(n) == {p \in [1..n -> 1..n] : \A i, j \in 1..n : i # j => p[i] # p[j]}
+SpPerms == UNION {Perms(n) \ {Ident(n)} : n \in 2..MaxSp}
+\* an earlier simulator call with the same argument objects
+EarlierCall == /\ a.ph = "args" /\ cs.ops = <<>>
+               /\ cs' = [cs EXCEPT !.ops = <<Op("call", <<>>)>>, !.memo = IF StaleArgs THEN cs.gm ELSE <<>>]
+               /\ UNCHANGED <<a, b, hist>>
+\* the mapping is re-applied in place: every gene of species t now belongs to species p[t]
+Reassign(p) == /\ a.ph = "args" /\ Len(cs.ops) = 1 /\ Len(p) = NumSp(cs.sp)
+               /\ cs' = [cs EXCEPT !.gm = [i \in 1..Len(cs.gm) |-> p[cs.gm[i]]], !.ops = Append(@, Op("remap", p))]
+               /\ UNCHANGED <<a, b, hist>>
+\* the call under study: run a on the argument objects with their history, run b on freshly built equal arguments
+Begin == /\ a.ph = "args" /\ cs.ops # <<>>
+         /\ a' = InitOf(IF StaleArgs /\ cs.memo # <<>> THEN [cs EXCEPT !.gm = cs.memo] ELSE cs)
+         /\ b' = InitOf(cs)
+         /\ UNCHANGED <<cs, hist>>
 
 GVals == IF Leak THEN {0, 1} ELSE {0}
 \* under Leak the lineage of a birth/death is picked with a draw from the global generator
@@ -41,7 +75,7 @@ Automatic(k) == /\ AutoKind(a, StopGT) = k
                 /\ a' = AutoStep(a, StopGT, AsShipped) /\ b' = AutoStep(b, StopGT, AsShipped)
                 /\ UNCHANGED <<cs, hist>>
 
-Wait(dt) == (a.sim = "cc" /\ AtRootEdge(a) => dt <= RootDt) /\ Decide(Dc("W", dt, 0, <<>>))
+Wait(dt) == a.ph # "args" /\ (a.sim = "cc" /\ AtRootEdge(a) => dt <= RootDt) /\ Decide(Dc("W", dt, 0, <<>>))
 Birth(l) == Decide(Dc("B", l, 0, <<>>))
 Death(l) == Decide(Dc("D", l, 0, <<>>))
 Coalesce(i, j) == Decide(Dc("C", i, j, <<>>))
@@ -53,7 +87,6 @@ LeaveEdge == Automatic("LeaveEdge")
 Finish == Automatic("Finish")
 
 LMax == IF "cc" \in Sims /\ MaxSp * MaxG > MaxN + 1 THEN MaxSp * MaxG ELSE MaxN + 1
-Perms(n) == {p \in [1..n -> 1..n] : \A i, j \in 1..n : i # j => p[i] # p[j]}
 AllPerms == UNION {Perms(n) : n \in 1..(MaxN + 1)}
 Pairs == {ij \in (1..LMax) \X (1..LMax) : ij[1] < ij[2]}
 Next == \/ \E dt \in 1..MaxDt : Wait(dt)
@@ -62,10 +95,11 @@ Next == \/ \E dt \in 1..MaxDt : Wait(dt)
         \/ \E ij \in Pairs : Coalesce(ij[1], ij[2])
         \/ \E p \in AllPerms : AssignTaxa(p)
         \/ Stop \/ PruneExtinct \/ RestartAfterExtinction \/ LeaveEdge \/ Finish
+        \/ EarlierCall \/ (\E p \in SpPerms : Reassign(p)) \/ Begin
 Spec == Init /\ [][Next]_vars
 
 \* ------------------------------------------------------------------ properties
-Fails == IF a.ph = "done" THEN SeqToSet(FinalFails(a)) ELSE {}
+Fails == IF a.ph = "done" THEN SeqToSet(FinalFails(a, cs.gm)) ELSE {}     \* judged against the CURRENT arguments
 WellFormedFinal == "C18.WellFormed" \notin Fails
 ExactlyNExtantLeaves == "C18.ExactlyNExtantLeaves" \notin Fails
 DistinctTaxa == "C18.DistinctTaxa" \notin Fails
@@ -73,11 +107,12 @@ Bifurcating == "C18.Bifurcating" \notin Fails
 ExtantTipsEquidistant == "C18.ExtantTipsEquidistant" \notin Fails
 KingmanOk == Fails \cap {"C18.KingmanOneLeafPerTaxon", "C18.KingmanBifurcating", "C18.KingmanUltrametric"} = {}
 CoalescenceRespectsDivergence == Fails \cap {"C18.GeneLeavesMapped", "C18.CoalescenceRespectsDivergence"} = {}
-\* the output is a function of (arguments, decisions of the supplied generator)
+\* the output is a function of (CURRENT state of the arguments, decisions of the supplied generator): run b
+\* starts from freshly built equal arguments
 Determinism == a.ph = b.ph /\ a.out = b.out
 NoGlobalRng == a.gd = 0 /\ b.gd = 0
 \* the fold used by the trace judge is the same function as the stepwise model
-FoldAgrees == (~StopGT /\ ~AsShipped /\ ~Leak) => Auto(a, FALSE, FALSE) = RunSim(cs, hist)
+FoldAgrees == (~StopGT /\ ~AsShipped /\ ~Leak /\ ~StaleArgs /\ a.ph # "args") => Auto(a, FALSE, FALSE) = RunSim(cs, hist)
 \* extinct lineages never survive pruning; restarts really start afresh
 PrunedHasNoDead == (a.ph \in {"pruned", "done"} /\ a.sim \in {"bd", "fast"}) => Cardinality(Leaves(a.out)) = Len(a.act)
 =============================================================================
